@@ -64,15 +64,22 @@ ResultShape(api, rs) ==
 
 UsesU(sig) == \/ \E i \in 1..Len(sig.params) : Class(sig.params[i]) = "U"
               \/ (sig.api = "func" /\ Len(sig.results) >= 1 /\ Class(sig.results[1]) = "U")
+NamedTypes == {"MyInt", "MyInt8", "MyFloat", "MyFloat32", "MyBool", "MyString", "MyUint"}
+UsesNamed(sig) == \/ \E i \in 1..Len(sig.params) : sig.params[i] \in NamedTypes
+                  \/ (sig.api = "func" /\ Len(sig.results) >= 1 /\ sig.results[1] \in NamedTypes)
 
 (* Registration: "ok" must be accepted, "refused" must be refused with an     *)
-(* error, "either" = the property does not say (uint family): refused, or     *)
-(* accepted and then faithful.  A panic is never allowed.                     *)
+(* error, "either" = refused, or accepted and then faithful.  A panic is      *)
+(* never allowed.  "either" covers what the property does not settle: the     *)
+(* uint family, and named types - the property is conditional there ("if      *)
+(* registering succeeds then ... also for named types"): a library that       *)
+(* refuses func(MyInt) outright satisfies it, one that accepts it must        *)
+(* deliver a MyInt.                                                           *)
 Register(sig) ==
   IF sig.shape # "fn" THEN "refused"
   ELSE IF \E i \in 1..Len(sig.params) : Class(sig.params[i]) = "X" THEN "refused"
   ELSE IF ResultShape(sig.api, sig.results) = "bad" THEN "refused"
-  ELSE IF UsesU(sig) THEN "either"
+  ELSE IF UsesU(sig) \/ UsesNamed(sig) THEN "either"
   ELSE "ok"
 
 -----------------------------------------------------------------------------
